@@ -101,7 +101,8 @@ type Sim struct {
 	Choose  Chooser
 	MaxStep uint64
 	// hooks
-	OnSpawn func(t *Task)
+	OnSpawn   func(t *Task)
+	AfterStep func(t *Task) // called on the coordinator after every step of any task
 	// digest of everything observable (order of steps, harness events)
 	digest uint64
 	TraceF func(format string, args ...any) // optional human-readable trace
@@ -305,6 +306,9 @@ func (s *Sim) resume(t *Task) {
 		fn := t.spawnFn
 		t.spawnFn = nil
 		s.Spawn(fmt.Sprintf("%s/go%d", t.Name, len(s.tasks)), fn)
+	}
+	if s.AfterStep != nil {
+		s.AfterStep(t)
 	}
 }
 
